@@ -83,7 +83,7 @@ impl LockFile {
                     .unwrap()
                     .as_secs();
 
-                if current_time - timestamp > STALE_LOCK_TIMEOUT_SECS {
+                if current_time.saturating_sub(timestamp) > STALE_LOCK_TIMEOUT_SECS {
                     // Lock is stale, remove it
                     sched_point("remove");
                     fs::remove_file(&lock_path).context("Failed to remove stale lock file")?;
